@@ -34,6 +34,8 @@ SPECS = (
     + [dict(spacing=s) for s in ([0.5, 1.0], [1.0, 0.5], [1.5, 0.75], [2.0, 1.25])]
 )
 FRAMES = [[1.0, 0.0], [1.0, 7460000.0], [2.0 ** -7, 0.0], [2.0 ** 10, 0.0], [1.0, 4096.0], [2.0 ** 20, 2.0 ** 30]]
+DEGENERATE = [[[1.0, 0.0], [1.0, 1.0], [1.0, 2.0], [1.0, 3.5]], [[0.0, 2.0], [1.5, 2.0], [4.0, 2.0], [2.25, 2.0]], [[2.0, 0.5]], [[-3.0, 1.0], [-3.0, 1.0]]]
+NEAR = [1e-3, 1e-5, 2e-6, 1e-6, 1e-7, 1e-9]   # fractions of a block
 ALWAYS_FRAMES = [[1.0, 0.0], [1.0, 7460000.0]]   # the second one: projected-coordinate magnitudes at which a float32 cast moves quarter-unit points
 
 
@@ -64,6 +66,9 @@ def cases(tier, seed):
                     for k in (2, 3, 4):
                         for sub in itertools.combinations(range(len(MARKERS)), k):
                             yield dict(frame=fr, spec=spec, adjust=adjust, form=form, markers=list(sub), given=False)
+                    # degenerate bounding boxes (documented as valid regions): collinear points and a single point (seed C08-8)
+                    for pts in DEGENERATE:
+                        yield dict(frame=fr, spec=spec, adjust=adjust, form=form, markers=[], pts=pts, given=False)
 
 
 def _lattice(lo, hi, pad):
@@ -81,7 +86,7 @@ def run(case, rec):
         base_region = case["region"]
         extra_pts = []
     else:
-        pts = [MARKERS[i] for i in case["markers"]]
+        pts = [tuple(p) for p in case["pts"]] if case.get("pts") else [MARKERS[i] for i in case["markers"]]
         base_region = [min(p[0] for p in pts), max(p[0] for p in pts), min(p[1] for p in pts), max(p[1] for p in pts)]
         extra_pts = pts
     w, e, s, n = base_region
@@ -106,6 +111,42 @@ def run(case, rec):
     north = np.array([p[1] * sc + off for p in cloud])
     region = [w * sc + off, e * sc + off, s * sc + off, n * sc + off]
     form = case["form"]
+    # points a small fraction of a block away from every internal block edge (seed C08-7: a "tie" tolerance when breaking ties
+    # between the two nearest block centres); only when the layout is known beforehand
+    guard = (0, 0)
+    if case["given"] and e > w and n > s:
+        lay = None
+        if "shape" in spec:
+            lay = (spec["shape"][1], spec["shape"][0], list(region))
+        else:
+            sp_ = spec["spacing"]
+            spn_, spe_ = [v * sc for v in (sp_ if isinstance(sp_, list) else [sp_, sp_])]
+            kes_, _ = G.n_intervals(region[0], region[1], spe_)
+            kns_, _ = G.n_intervals(region[2], region[3], spn_)
+            if len(kes_) == 1 and len(kns_) == 1:
+                ne_0, nn_0 = list(kes_)[0], list(kns_)[0]
+                eff_ = list(region)
+                if adjust == "region":
+                    eff_[1] = float(G.fr(region[0]) + ne_0 * G.fr(spe_))
+                    eff_[3] = float(G.fr(region[2]) + nn_0 * G.fr(spn_))
+                lay = (ne_0, nn_0, eff_)
+        if lay is not None:
+            ne_0, nn_0, eff_ = lay
+            bw, bh = (eff_[1] - eff_[0]) / ne_0, (eff_[3] - eff_[2]) / nn_0
+            mag = max(abs(v) for v in eff_)
+            guard = (max(1e-10 * bw, 64 * np.spacing(mag)), max(1e-10 * bh, 64 * np.spacing(mag)))
+            near_e, near_n = [], []
+            for dl in NEAR:
+                for sg in (-1.0, 1.0):
+                    for c_ in range(1, ne_0):
+                        for r_ in {0, nn_0 - 1}:
+                            near_e.append(eff_[0] + c_ * bw + sg * dl * bw); near_n.append(eff_[2] + (r_ + 0.5) * bh)
+                    for r_ in range(1, nn_0):
+                        for c_ in {0, ne_0 - 1}:
+                            near_e.append(eff_[0] + (c_ + 0.5) * bw); near_n.append(eff_[2] + r_ * bh + sg * dl * bh)
+            east = np.concatenate([east, near_e])
+            north = np.concatenate([north, near_n])
+            rec.count("points_near_an_edge", len(near_e))
     if form in ("2d", "2d+extra", "2dF"):
         # make a 2-D array (pad by repeating the first point so that any count reshapes)
         m = len(east)
@@ -193,7 +234,7 @@ def run(case, rec):
     nstrict = 0
     bad = None
     for i in range(npts):
-        adm = G.block_index_exact(fe[i], fn[i], eff, ne, nn)
+        adm = G.block_index_exact(fe[i], fn[i], eff, ne, nn, guard)
         if len(adm) == 1:
             nstrict += 1
         if int(labels[i]) not in adm and bad is None:
